@@ -26,6 +26,10 @@ func c05(c *Ctx) {
 	r.Rule("R05.A", "pad-add range: for every residue of the payload length, 0 <= pad <= 15 and (len+pad) % 16 == 0", 2)
 	r.Rule("R05.S", "pad-strip range: every cut point len-p, p in 0..15, is tried and no cut point is negative; the 20-byte hash prefix split is length-guarded", 2)
 	r.Rule("R05.W", "nonces are converted at fixed width (32 / 16 bytes) before they are mixed into the temp key and IV", 2)
+	r.Rule("R05.K", "temp keys: the tmp_aes_key / tmp_aes_iv expressions extracted from generateTempKeys are the formulas of the key-exchange document", 2)
+	if c.verifySummaries("R05.K") {
+		c.tempKeys("R05.K")
+	}
 
 	// ---- R05.V ------------------------------------------------------------------------------------
 	for _, name := range []string{"doAES256IGEencrypt", "doAES256IGEdecrypt"} {
